@@ -466,11 +466,10 @@ package tax
 //@   at-call Combo).calculate assert [date] $arg1 == tc.Country && $arg2 == tc.Tags && $arg3 == tc.Date
 //@   at-call Amount).RescaleUp assert [working] $arg1 == tc.zero.exp + 2
 //
-// ---- C20: negating a summary. Decided here at the level of the categories: amount and
-// precise amount change sign, every category object and every category surcharge record is a
-// fresh one (nothing is shared with the operand, which is not written), the sums change sign.
-// That the surcharge figures and the rows inside the categories change sign is written in
-// /verif/contracts/wip and does not discharge (cell contents under allocation: undecided).
+// ---- C20: negating a summary: a fresh summary in which every amount — sums, category
+// amounts and surcharges, row bases, amounts and surcharge amounts — has the opposite sign;
+// nothing is shared with the operand, which is not written. `live` pointers keep the facts
+// about surcharge records across the allocation of new ones.
 //@ pred catHeadNeg(a *CategoryTotal, b *CategoryTotal) bool = b.Code == a.Code && b.Retained == a.Retained && b.Amount == num.neg(a.Amount) && b.amount == num.neg(a.amount) && (a.Surcharge == nil ==> b.Surcharge == nil) && (a.Surcharge != nil ==> b.Surcharge != nil && fresh(b.Surcharge) && live(b.Surcharge) && *b.Surcharge == num.neg(*a.Surcharge))
 //@ pred catHeadSame(a *CategoryTotal, b *CategoryTotal) bool = b.Code == a.Code && b.Retained == a.Retained && b.Amount == a.Amount && b.amount == a.amount && (a.Surcharge == nil ==> b.Surcharge == nil) && (a.Surcharge != nil ==> b.Surcharge != nil && fresh(b.Surcharge) && live(b.Surcharge) && *b.Surcharge == *a.Surcharge)
 //@ pred rowsFresh(a *CategoryTotal, b *CategoryTotal) bool = len(b.Rates) == len(a.Rates) && (forall j int :: 0 <= j && j < len(a.Rates) ==> b.Rates[j] != nil && fresh(b.Rates[j]))
